@@ -195,6 +195,30 @@ def run(ctx):
                               {'reverse': rev, 'pass': pno, 'nrows': 120, 'buffersize': 2})
     ctx.exhaustive = False
 
+    # ---- comparisons outside the value domain (a naive against an aware datetime or time, a number against a complex, two dicts)
+    # are made once, up front: whatever they do, they must leave no trace on the comparisons of the domain that follow.
+    # (This block runs before the pair/triple sweep below is re-run on the real code.)
+    import datetime as _dtm
+    from petl.comparison import Comparable as _Cmp
+    for a_, b_ in ((_dtm.datetime(2024, 1, 1), _dtm.datetime(2024, 1, 1, tzinfo=_dtm.timezone.utc)),
+                   (_dtm.time(1, 2), _dtm.time(1, 2, tzinfo=_dtm.timezone.utc)), (1, 1j), ({'a': 1}, {'b': 2}), (set([1]), set([2]))):
+        for x_, y_ in ((a_, b_), (b_, a_)):
+            try:
+                _Cmp(x_) < _Cmp(y_)
+                _Cmp(x_) == _Cmp(y_)
+            except Exception:   # noqa
+                pass
+    dts = [_dtm.datetime(2020, 1, 1), _dtm.datetime(2020, 1, 2), _dtm.datetime(1999, 12, 31, 23, 59, 59), _dtm.time(0, 0), _dtm.time(12, 30),
+           _dtm.date(2020, 1, 1), _dtm.date(2020, 1, 2), 1, 2, 2.5, 'a', 'b', b'a', (1, 'a'), (1, 'b')]
+    for x_ in dts:
+        for y_ in dts:
+            if type(x_) is type(y_) or (isinstance(x_, (int, float)) and isinstance(y_, (int, float))):
+                got = (_Cmp(x_) < _Cmp(y_), _Cmp(x_) == _Cmp(y_))
+                ctx.case(('after-foreign-comparison', repr(x_), repr(y_)))
+                ctx.count('after-foreign-comparison')
+                if got != (x_ < y_, x_ == y_):
+                    ctx.spec_fail('Comparable|stateful', 'after comparisons of values outside the domain, two values of one type no longer follow their native order',
+                                  {'x': repr(x_), 'y': repr(y_), '(x < y, x == y) under Comparable': got, 'native': (x_ < y_, x_ == y_)})
     # ---- operands that are sort views (issorted, merge joins)
     util.view_operand_cases(etl, ctx.rng, ctx, [
         ('issorted', 1, lambda t: [[etl.issorted(t, 'x'), etl.issorted(t, 'x', strict=True), etl.issorted(t, 'x', reverse=True),
